@@ -8,6 +8,7 @@ import (
 	"sort"
 	"strings"
 	"sync"
+	"time"
 )
 
 // simHAProxy stands in for HAProxy's admin API, health check and stats page
@@ -24,6 +25,8 @@ type simHAProxy struct {
 	StatsCSV string
 	// Stats, when set, answers a request for the statistics page (status, body).
 	Stats func() (int, string)
+	// Delay, when set, says how long the answer to this call takes.
+	Delay func(method, path string) time.Duration
 }
 
 func installHAProxy() *simHAProxy {
@@ -39,6 +42,12 @@ func (h *simHAProxy) RoundTrip(req *http.Request) (*http.Response, error) {
 		body = string(b)
 	}
 	path := req.URL.Path
+	if h.Delay != nil {
+		// a slow admin API: the answer takes (fake) time; no lock of the stub is held meanwhile
+		if d := h.Delay(req.Method, path); d > 0 {
+			time.Sleep(d)
+		}
+	}
 	h.mu.Lock()
 	defer h.mu.Unlock()
 	h.Calls = append(h.Calls, req.Method+" "+path+" "+body)
